@@ -91,6 +91,50 @@ Theorem C20_bounded_law_end_to_end_partial :
          end.
 Proof. exact bounded_law_end_to_end. Qed.
 
+(* r|r = r (read right to left: the last alternative of every alternation, the whole pattern's included, written twice) *)
+Theorem C20_duplicate_law_end_to_end_partial :
+  forall fl a input,
+    ok_a (f_xpath fl) a = true -> f_literal fl = false -> f_ws fl = false -> (N.of_nat (length input) < umax)%N -> valid_in input ->
+    exists prog prog', compile true fl (show_a a) = Ok prog /\ compile true fl (show_a (dup_a a)) = Ok prog'
+      /\ match matches prog input 0 st0, matches prog' input 0 st0 with
+         | MTrue _, MTrue _ | MFalse _, MFalse _ => True
+         | _, _ => False
+         end.
+Proof. exact duplicate_law_end_to_end. Qed.
+
+(* a capturing group (the grammar has no back-references) turned into a non-capturing one, everywhere (XPath) *)
+Theorem C20_uncapture_law_end_to_end_partial :
+  forall fl a input, f_xpath fl = true ->
+    ok_a true a = true -> f_literal fl = false -> f_ws fl = false -> (N.of_nat (length input) < umax)%N -> valid_in input ->
+    exists prog prog', compile true fl (show_a a) = Ok prog /\ compile true fl (show_a (uncap_a a)) = Ok prog'
+      /\ match matches prog input 0 st0, matches prog' input 0 st0 with
+         | MTrue _, MTrue _ | MFalse _, MFalse _ => True
+         | _, _ => False
+         end.
+Proof. exact uncapture_law_end_to_end. Qed.
+
+(* wrapping a term in (?: ): every quantified character of the pattern (XPath) *)
+Theorem C20_wrap_law_end_to_end_partial :
+  forall fl a input, f_xpath fl = true ->
+    ok_a true a = true -> f_literal fl = false -> f_ws fl = false -> (N.of_nat (length input) < umax)%N -> valid_in input ->
+    exists prog prog', compile true fl (show_a a) = Ok prog /\ compile true fl (show_a (wrap_a a)) = Ok prog'
+      /\ match matches prog input 0 st0, matches prog' input 0 st0 with
+         | MTrue _, MTrue _ | MFalse _, MFalse _ => True
+         | _, _ => False
+         end.
+Proof. exact wrap_law_end_to_end. Qed.
+
+(* r{n} = n copies of r, for a character: every c{n} spelled c...c (the copies join the runs around them) *)
+Theorem C20_exact_law_end_to_end_partial :
+  forall fl a input,
+    ok_a (f_xpath fl) a = true -> f_literal fl = false -> f_ws fl = false -> (N.of_nat (length input) < umax)%N -> valid_in input ->
+    exists prog prog', compile true fl (show_a a) = Ok prog /\ compile true fl (show_a (exa_a a)) = Ok prog'
+      /\ match matches prog input 0 st0, matches prog' input 0 st0 with
+         | MTrue _, MTrue _ | MFalse _, MFalse _ => True
+         | _, _ => False
+         end.
+Proof. exact exact_law_end_to_end. Qed.
+
 Print Assumptions C20_wrap_noncapturing_spec.
 Print Assumptions C20_group_to_noncapturing_spec.
 Print Assumptions C20_alt_idempotent_spec.
@@ -107,3 +151,7 @@ Print Assumptions C20_plus_law_end_to_end_partial.
 Print Assumptions C20_optional_law_end_to_end_partial.
 Print Assumptions C20_at_least_law_end_to_end_partial.
 Print Assumptions C20_bounded_law_end_to_end_partial.
+Print Assumptions C20_duplicate_law_end_to_end_partial.
+Print Assumptions C20_uncapture_law_end_to_end_partial.
+Print Assumptions C20_wrap_law_end_to_end_partial.
+Print Assumptions C20_exact_law_end_to_end_partial.
